@@ -5,7 +5,7 @@ import ast
 import itertools
 import re
 
-from ..loader import AnalysisError, dotted, norm, walk_no_defs
+from ..loader import const_eval, AnalysisError, dotted, norm, walk_no_defs
 from ..minieval import MiniEval, Obj, Unsupported
 from ..regexlang import Unsupported as RxUnsupported
 from ..regexlang import compile_nfa, included
@@ -51,6 +51,20 @@ class _Ev(MiniEval):
         return super().attribute(e, env)
 
 
+def _with_helpers(a, ev):
+    """module-level helper functions and constant tables of the style module are interpretable too"""
+    mod = a.p.module('tatsu.ztyle.style')
+    for name, f in mod.functions.items():
+        if name not in ev.calls and not f.decorators:
+            ev.globals.setdefault(name, ('<func>', f.node, {}))
+    for name, val in mod.assigns.items():
+        try:
+            ev.globals.setdefault(name, const_eval(val))
+        except ValueError:
+            pass
+    return ev
+
+
 def _tty_regexes(a):
     mod = a.p.module('tatsu.util.tty')
     out = {}
@@ -68,7 +82,7 @@ def _style_obj(flags: dict, fg, bg, enabled=True, fmt=None):
 
 def _encode(a, style, text='T', force=True):
     fn = a.p.func(f'{STYLE}.apply_style')
-    ev = _Ev({'RGB': RGBv})
+    ev = _with_helpers(a, _Ev({'RGB': RGBv}))
     return ev.call_function(fn.node, [style, text, force])
 
 
@@ -85,7 +99,7 @@ def _decode(a, raw: str, rx):
             return {'text': args[0], **kwargs}
         return NotImplemented
 
-    ev = _Ev({'RGB': RGBv, 'SGR_RE': sgr, 'ANSI_RE': ansi}, calls={'tty_unescape': lambda s: s}, methods=methods)
+    ev = _with_helpers(a, _Ev({'RGB': RGBv, 'SGR_RE': sgr, 'ANSI_RE': ansi}, calls={'tty_unescape': lambda s: s}, methods=methods))
     cls = Obj()
     return ev.call_function(fn.node, [cls, raw])
 
@@ -220,7 +234,7 @@ def r4_apply(a, tier):
     for fmt, stored, enabled, fl, fg in itertools.product([None, '', '>6', '*^8'], [None, '<7'], [True, False], [{}, {'bold': True}], [-1, 2]):
         st = _style_obj(fl, fg, -1, enabled=enabled, fmt=stored)
         object.__setattr__(st, '_methods', {'apply_style': asf.node})
-        ev = _Ev({'RGB': RGBv}, calls={'format': format})
+        ev = _with_helpers(a, _Ev({'RGB': RGBv}, calls={'format': format}))
         try:
             out = ev.call_function(ap.node, [st, 'ab', fmt])
         except Unsupported as e:
